@@ -95,6 +95,9 @@ struct ReplaceCfg {
 
 #[derive(Deserialize, Clone, Debug, Default)]
 struct FnCfg {
+	/// L22: write every `E?` of this function as `match E { Ok(v) => v, Err(e) => return Err(From::from(e)) }`
+	#[serde(default)]
+	desugar_try: bool,
 	#[serde(default)]
 	attrs: Vec<String>,
 	#[serde(default)]
@@ -841,6 +844,15 @@ impl<'ast, 'c> Visit<'ast> for FnVisitor<'c> {
 	fn visit_expr_try(&mut self, t: &'ast syn::ExprTry) {
 		self.tried.push(br(t.expr.span()));
 		let (ws, we) = br(t.span());
+		// L22: `E?` written out as its desugaring (Rust reference), on request: Verus gives no fact about the error
+		// converted by `?`, but does use the contract of an explicit `From::from` call
+		if self.closure_depth == 0 && self.cfg.desugar_try && !self.scopes.iter().any(|(a, b, _, c)| ws >= *a && we <= *b && ws < *c) {
+			let (es, ee) = br(t.expr.span());
+			self.push(ws, we, vec![
+				Part::Text("(match ".into()), Part::Src(es, ee),
+				Part::Text(" { Ok(vx_ok) => vx_ok, Err(vx_err) => { return Err(core::convert::From::from(vx_err)); } })".into()),
+			], "L22");
+		}
 		if self.closure_depth == 0 {
 			if let Some((_, _, name, _)) = self.scopes.iter().find(|(a, b, _, c)| ws >= *a && we <= *b && ws < *c).cloned() {
 				// is the operand itself an operation of that batch?  (those are covered by S1)
